@@ -55,9 +55,15 @@ def generate(seed, tier, index):
     giant = kind == "tauleap" and not huge and not half and rs.chance(0.05)
     dtail = kind == "euler" and rs.chance(0.08)
     biggrid = kind == "euler" and rs.chance(0.06)
-    if biggrid:
+    manysp = (not huge) and (not half) and index % 40 == 13
+    if manysp:
+        # more than 32 species (33-70), with reactions among the high indices
+        entry = C.scale_entry(rs.sub("scale"), ru, rk, kind, "species", steps=(20, 60))
+        giant = dtail = biggrid = False
+    elif biggrid:
         # a few hundred cells (a blocked or tiled sweep over the grid has seams somewhere): diffusion with gradients everywhere
-        dims = rs.choice([[17, 16, 1], [20, 15, 1], [9, 8, 5], [300, 1, 1], [7, 7, 7], [33, 9, 1]])
+        dims = rs.choice([[17, 16, 1], [20, 15, 1], [9, 8, 5], [300, 1, 1], [7, 7, 7], [33, 9, 1],
+                          [5, 3, 3], [3, 4, 3], [7, 4, 3], [4, 3, 5], [6, 5, 4], [3, 5, 4]])
         nc_ = dims[0] * dims[1] * dims[2]
         vol = (rs.loguniform(0.5, 2.0) * 1e-6) ** 3
         h_ = vol ** (1.0 / 3.0)
@@ -114,7 +120,7 @@ def generate(seed, tier, index):
     sp = entry["phys"]["sp"]
     nrep = rf.wchoice([(1, 3), (2, 2)])
     scripts = [entry]
-    if nrep == 2 and rf.chance(0.6) and not giant and not dtail and not biggrid:
+    if nrep == 2 and rf.chance(0.6) and not giant and not dtail and not biggrid and not manysp:
         # second set-up on the same engine object with a sibling model: same species, same number of reactions, other
         # stoichiometry and constants (what a front-end cache keyed too coarsely would confuse)
         from .. import gen
@@ -144,7 +150,7 @@ def generate(seed, tier, index):
         eps.append({"obj": 0, "kind": kind, "via": rf.choice(["LibRDEngine", "factory"]), "script": sidx, "ops": ops})
     return {"format": 1, "property": ID, "seed": seed, "tier": tier, "index": index, "build": "plain",
             "scripts": scripts, "lifetimes": [{"pyseed": rf.bits(30), "episodes": eps}],
-            "meta": {"kind": kind, "sibling": len(scripts) > 1, "huge": huge, "half": half, "giant": giant, "dtail": dtail, "biggrid": biggrid}}
+            "meta": {"kind": kind, "sibling": len(scripts) > 1, "huge": huge, "half": half, "giant": giant, "dtail": dtail, "biggrid": biggrid, "manysp": manysp}}
 
 
 def check(case, results):
@@ -159,6 +165,8 @@ def check(case, results):
         stats["counts_above_2^24"] = 1
     if case["meta"].get("giant"):
         stats["firings_per_step_above_2^31/n"] = 1
+    if case["meta"].get("manysp"):
+        stats["more_than_32_species"] = 1
     if case["meta"].get("biggrid"):
         stats["grid_of_several_hundred_cells"] = 1
     if case["meta"].get("dtail"):
